@@ -242,6 +242,9 @@ func (e *Encoder) writeValue(val reflect.Value, tagType byte) error {
 		} else {
 			str = []byte(val.String())
 		}
+		if len(str) > math.MaxInt16 {
+			return errors.New("nbt: string of " + strconv.Itoa(len(str)) + " bytes does not fit the 16-bit length prefix")
+		}
 		if err := writeInt16(e.w, int16(len(str))); err != nil {
 			return err
 		}
@@ -421,6 +424,9 @@ func writeTag(w io.Writer, tagType byte, tagName string) error {
 		return err
 	}
 	bName := []byte(tagName)
+	if len(bName) > math.MaxInt16 {
+		return errors.New("nbt: tag name of " + strconv.Itoa(len(bName)) + " bytes does not fit the 16-bit length prefix")
+	}
 	if err := writeInt16(w, int16(len(bName))); err != nil {
 		return err
 	}
